@@ -290,6 +290,11 @@ def gen_curve(rng, g, n):
             # pairwise: equals <=> encodings identical, inside a batch with deliberate repeats
             pts = [g.rand_point(rng) for _ in range(4)]
             pts += [pts[0], g.neg(pts[1]), g.add(pts[2], g.neutral)]
+            if isinstance(g, G.EdG):
+                # the full curve is the group: a point and its translate by a low-order point are different elements
+                pts += [g.add(pts[0], rng.choice([L for L in g.low if not g.is_neutral(L)])), g.add(pts[3], g.low[1] if not g.is_neutral(g.low[1]) else g.low[0])]
+            elif isinstance(g, G.QuotG):
+                pass
             lines, exp = [], []
             for i in range(len(pts)):
                 for j in range(i + 1, len(pts)):
